@@ -11,9 +11,9 @@ Lemma load_save_svc s : load_svc (save_svc s) = Some s.
 Proof.
   destruct s as [n x p v np mp rp pe li pi fi]. unfold load_svc, save_svc.
   cbn [number st pid version node_port metrics_port rpc_port peers listen peer_id first].
-  unfold get_num, get_status, get_opt, get_bool. cbn [jget String.eqb Ascii.eqb Bool.eqb].
+  unfold get_num, get_status, get_opt, get_bool, get_conn. cbn [jget String.eqb Ascii.eqb Bool.eqb].
   rewrite status_of_str_str. rewrite String.eqb_refl.
-  destruct p, np, mp; reflexivity.
+  destruct p, np, mp, pe; reflexivity.
 Qed.
 
 Lemma save_load_lemma rg : load (save rg) = Some rg.
@@ -270,7 +270,7 @@ Proof. intros H. exact H. Qed.
 
 (* ================================================================ NodeService::on_start (full refresh) *)
 Lemma on_start_full_spec F dyn p s e c s' e' : on_start_full F dyn p s e = (c, s', e') ->
-  obs_eq e e' /\ ((s' = s /\ c = C_CONTROL) \/ (c = C_OK /\ s' = on_start_set p (listen_port e' (number s)) s)).
+  obs_eq e e' /\ ((s' = s /\ c = C_CONTROL) \/ (c = C_OK /\ s' = on_start_set p (listen_port e' (number s)) (rpc_peers (number s)) s)).
 Proof.
   unfold on_start_full. intros H.
   destruct dyn.
@@ -297,7 +297,7 @@ Lemma mgr_start_spec F dyn s e c s' e' : mgr_start F dyn s e = (c, s', e') ->
   (forall m, inste e' m = inste e m) /\
   (inste e (number s) = false -> st s <> Running -> s' = s /\ livee e' (number s) = livee e (number s)) /\
   ((s' = s /\ (c = C_OK -> st s = Running /\ livee e' (number s) <> None)) \/
-   (c = C_OK /\ exists p port, s' = on_start_set p port s /\ livee e' (number s) = Some p)).
+   (c = C_OK /\ exists p port, s' = on_start_set p port (rpc_peers (number s)) s /\ livee e' (number s) = Some p)).
 Proof.
   unfold mgr_start. set (n := number s). intros H.
   (* the "already running" probe *)
@@ -445,10 +445,10 @@ Definition op_props (f : svc -> env -> N * svc * env) : Prop :=
   (st s <> Removed -> st s' = Removed ->
      st s <> Running /\ livee e' (number s) = livee e (number s) /\ inste e' (number s) = false).
 
-Lemma number_on_start_set p port s : number (on_start_set p port s) = number s.
+Lemma number_on_start_set p port cn s : number (on_start_set p port cn s) = number s.
 Proof. reflexivity. Qed.
 
-Lemma svc_ok_started e p port s : livee e (number s) = Some p -> svc_ok e (on_start_set p port s).
+Lemma svc_ok_started e p port cn s : livee e (number s) = Some p -> svc_ok e (on_start_set p port cn s).
 Proof. intros L. split; [cbn; intros X; congruence|]. intros _. exists p. split; [reflexivity|]. left. exact L. Qed.
 
 Lemma mgr_start_props F dyn : op_props (mgr_start F dyn).
@@ -1482,4 +1482,22 @@ Qed.
    with the save); the failing run of the seeded variant is in notes/C19.md *)
 Example ex_batch_add_aborted : let '(w, c) := step [2] init (OAdd (mkAdd (Some 2) None None None false false)) in
   c = C_ADD_ABORTED /\ map number (reg w) = [1] /\ map number (edisk (wenv w)) = [1] /\ is_installed (eos (wenv w)) 1 = true.
+Proof. vm_compute. repeat split. Qed.
+
+(* ================================================================ the registry file: every field value survives *)
+Lemma jconn_injective a b : jconn a = jconn b -> a = b.
+Proof. destruct a, b; cbn; intros H; inversion H; reflexivity. Qed.
+
+Lemma registry_serde_constants :
+  Consts.registry_custom_serde =
+    ["connected_peers"; "serialize_connected_peers"; "deserialize_connected_peers";
+     "peer_id"; "serialize_peer_id"; "deserialize_peer_id"]%string /\
+  Consts.connected_peers_serde_is_elementwise = true.
+Proof. split; reflexivity. Qed.
+
+Example ex_empty_peer_list_is_not_none :
+  let s := on_start_set 1000 50001 (rpc_peers 1) (new_svc 1 None None 40000 false) in
+  peers s = Some [] /\ jget "connected_peers" (save_svc s) = Some (JArr []) /\
+  option_map peers (load_svc (save_svc s)) = Some (Some []) /\
+  option_map peers (load_svc (save_svc (on_stop s))) = Some None.
 Proof. vm_compute. repeat split. Qed.
